@@ -16,6 +16,7 @@ RULE = ("generated text/NetCDF inputs with cumulative probabilities (values 0, 1
         "probability source cdf|ensemble|mixed, p-class); non-trivial = p takes >= 2 values incl. 0 or 1, or the threshold "
         "is not stored.")
 RULE += " " + 'Ensemble-only text inputs with one-decimal member values not exact in single precision and thresholds equal to members (text values are doubles).'
+RULE += " " + 'Rounds 9-10: quantile pairs on the same side of the median.'
 ASSUMPTIONS = ["reliability/resolution use 10 equal-width probability bins with floating-point edges i*0.1, top edge inclusive",
                "no interpolation rule is demanded for quantiles taken from an ensemble (range, monotonicity, M=1 only)"]
 REQUIRED_COUNTERS = ["score_checks", "identity_checks", "complement_checks", "ensemble_prob_checks", "ensemble_quantile_checks",
